@@ -129,3 +129,121 @@ def _wrap_assert(f):
 
 
 FUNCS['kaisa_world_consistent'] = _wrap_assert(kaisa_world_consistent)
+
+
+# ---- matrix-level spec functions on real tensors (run-time refutation only; never counts as proof)
+class MatVal:
+    """Tensor value with structural equality up to a small relative tolerance."""
+
+    def __init__(self, t):
+        import torch
+        self.t = t.detach().clone() if isinstance(t, torch.Tensor) else torch.as_tensor(t)
+
+    def __eq__(self, o):
+        import torch
+        if not isinstance(o, MatVal):
+            return NotImplemented
+        a, b = self.t, o.t
+        if a.numel() != b.numel():
+            return False
+        a, b = a.reshape(-1).double(), b.reshape(-1).double()
+        if a.numel() == 0:
+            return True
+        scale = max(float(a.abs().max()), float(b.abs().max()), 1e-30)
+        return bool(((a - b).abs().max() / scale) <= 1e-5) or bool(torch.equal(a, b))
+
+    def __ne__(self, o):
+        r = self.__eq__(o)
+        return r if r is NotImplemented else not r
+
+    def __hash__(self):
+        return id(self)
+
+    def __repr__(self):
+        return f'MatVal(shape={tuple(self.t.shape)}, dtype={self.t.dtype})'
+
+
+def _m(x):
+    import torch
+    if isinstance(x, MatVal):
+        return x.t
+    if isinstance(x, torch.Tensor):
+        return x
+    return torch.as_tensor(x)
+
+
+def _2d(t):
+    return t if t.dim() == 2 else t.reshape(t.shape[0], -1) if t.dim() > 2 else t.reshape(-1, 1) if t.dim() == 1 else t.reshape(1, 1)
+
+
+def _mk_ops():
+    import torch
+    W = MatVal
+    ops = {
+        'val': lambda t: W(t),
+        'mul': lambda a, b: W(_m(a) @ _m(b)),
+        'add': lambda a, b: W(_m(a) + _m(b)),
+        'sub': lambda a, b: W(_m(a) - _m(b)),
+        'hmul': lambda a, b: W(_m(a) * _m(b)),
+        'hdiv': lambda a, b: W(_m(a) / _m(b)),
+        'smul': lambda c, a: W(c * _m(a)),
+        'sadd': lambda a, c: W(_m(a) + c),
+        'sdiv': lambda a, c: W(_m(a) / c),
+        'rdiv': lambda c, a: W(c / _m(a)),
+        'tr': lambda a: W(_m(a).t()),
+        'inv': lambda a: W(torch.linalg.inv(_m(a))),
+        'diag': lambda a: W(torch.diag(_m(a))),
+        'full': lambda shape, c: W(torch.full(tuple(shape), float(c))),
+        'hcat': lambda a, b: W(torch.cat([_m(a), _m(b).to(_m(a).dtype)], dim=-1)),
+        'lcols': lambda a: W(_m(a)[:, :-1]),
+        'lastcol': lambda a: W(_m(a)[:, -1:]),
+        'view': lambda a, s1, s2: W(_m(a).reshape(tuple(s2))),
+        'eigvals': lambda a: W(torch.linalg.eigh(_m(a))[0]),
+        'eigvecs': lambda a: W(torch.linalg.eigh(_m(a))[1]),
+        'clampmin': lambda a, c: W(torch.clamp(_m(a), min=c)),
+        'outer': lambda a, b: W(torch.outer(_m(a), _m(b))),
+        'sumall': lambda a: W(_m(a).sum()),
+        'item': lambda a: _m(a).item(),
+        'numel': lambda shape: int(torch.Size(tuple(shape)).numel()),
+        'infer_extent': lambda n, p: n // p,
+        'is_tensor': lambda x: isinstance(x, torch.Tensor),
+        'is_future': lambda x: isinstance(x, (torch._C.Future, torch.futures.Future)),
+        'fresh_storage': lambda t: True,
+    }
+    return ops
+
+
+try:
+    FUNCS.update(_mk_ops())
+except ImportError:
+    pass
+FUNCS['shape_is'] = lambda t, lst: list(t.shape) == list(lst)
+FUNCS['transpose'] = lambda a, i, j: MatVal(_m(a).transpose(i, j))
+FUNCS['unfold'] = lambda a, d, k, s: MatVal(_m(a).unfold(d, k, s))
+FUNCS['pad'] = lambda a, l, r, t, b: MatVal(__import__('torch').nn.functional.pad(_m(a), (l, r, t, b)))
+
+
+def outer_product_oracle(helper):
+    """C15: combined gradient == sum over samples/positions of outer(output-gradient row, [input-patch row | 1]).
+    Uses autograd's own gradients (trusted conv/linear backward) on the recorded forward/backward pass."""
+    import torch
+    x, gout = helper._vp_input, helper._vp_gout
+    m = helper.module
+    if isinstance(m, torch.nn.Conv2d):
+        rows = torch.nn.functional.unfold(x, m.kernel_size, padding=m.padding, stride=m.stride)  # N, C*kh*kw, L
+        rows = rows.transpose(1, 2).reshape(-1, rows.shape[1])
+        g = gout.reshape(gout.shape[0], gout.shape[1], -1).transpose(1, 2).reshape(-1, gout.shape[1])
+        own = helper._extract_patches(x)
+        if not torch.allclose(own.reshape(-1, own.shape[-1]), rows):
+            return False
+    else:
+        rows = x.reshape(-1, x.shape[-1])
+        g = gout.reshape(-1, gout.shape[-1])
+    if m.bias is not None:
+        rows = torch.cat([rows, torch.ones(rows.shape[0], 1, dtype=rows.dtype)], 1)
+    expect = g.t() @ rows
+    got = helper.get_grad()
+    return got.shape == expect.shape and torch.allclose(got, expect, rtol=1e-8, atol=1e-10)
+
+
+FUNCS['outer_product_oracle'] = outer_product_oracle
